@@ -180,6 +180,7 @@ def op (s : String) : Option Op :=
   | ["prompt", p] => if p == "none" then some (.setPrompt none) else (Bytes.ofHex p).map (Op.setPrompt ∘ some)
   | ["wp+", p] => (Pat.ofWire p).map .promptEnter
   | ["wp-"] => some .promptExit
+  | ["wp-!"] => some .promptExit            -- the `with` block is left by an exception
   | ["bl", b] => (Bytes.ofHex b).map .setBlacklist
   | ["slow", d, c] => do pure (.setSlow (← optNat d) (← c.toNat?))
   | ["read", n, t] => do pure (.read (← optNat n) (← optNat t))
@@ -196,8 +197,10 @@ def op (s : String) : Option Op :=
   | ["sc", n] => n.toNat?.map .sendcontrol
   | ["st+", id, sp] => do pure (.streamEnter (← id.toNat?) (← bool sp))
   | ["st-"] => some .streamExit
+  | ["st-!"] => some .streamExit
   | ["ds+", p, e] => do pure (.deathEnter (← Pat.ofWire p) (← e.toNat?))
   | ["ds-"] => some .deathExit
+  | ["ds-!"] => some .deathExit
   | ["ads", p, e] => do pure (.deathAdd (← Pat.ofWire p) (← e.toNat?))
   | ["sleep", n] => n.toNat?.map .sleep
   | _ => none
